@@ -900,6 +900,73 @@ impl LinkCcController {
     }
 }
 
+/// Observation of the private per-link controller state for the
+/// out-of-tree checker (feature `verif-hooks`). Read-only.
+#[cfg(feature = "verif-hooks")]
+#[derive(Clone, Debug)]
+pub struct VerifLinkCcDump {
+    pub rtt_min_raw_ms: f64,
+    pub rtt_min_stamp_ms: u64,
+    pub last_rtt_update_ms: u64,
+    /// `(ts_ms, lost, sent)` per sample, oldest first.
+    pub loss_samples: Vec<(u64, u32, u32)>,
+    pub window_lost: u32,
+    pub window_sent: u32,
+    pub fast_recovery_ticks: u32,
+    pub prev_bytes_sent_total: u64,
+    pub prev_nak_total: i32,
+    pub traffic_baseline_set: bool,
+    pub loss_ewma_last_ms: u64,
+    pub loss_high_since_ms: u64,
+    pub backoff_ticks: u32,
+    pub backoff_entry_loss_pm: u32,
+    pub loss_uncongestive: bool,
+    pub uncongestive_ticks: u32,
+}
+
+#[cfg(feature = "verif-hooks")]
+impl LinkCongestionState {
+    pub fn verif_dump(&self) -> VerifLinkCcDump {
+        VerifLinkCcDump {
+            rtt_min_raw_ms: self.rtt_min_ms,
+            rtt_min_stamp_ms: self.rtt_min_stamp_ms,
+            last_rtt_update_ms: self.last_rtt_update_ms,
+            loss_samples: self
+                .loss_samples
+                .iter()
+                .map(|s| (s.ts_ms, s.lost, s.sent))
+                .collect(),
+            window_lost: self.window_lost,
+            window_sent: self.window_sent,
+            fast_recovery_ticks: self.fast_recovery_ticks,
+            prev_bytes_sent_total: self.prev_bytes_sent_total,
+            prev_nak_total: self.prev_nak_total,
+            traffic_baseline_set: self.traffic_baseline_set,
+            loss_ewma_last_ms: self.loss_ewma_last_ms,
+            loss_high_since_ms: self.loss_high_since_ms,
+            backoff_ticks: self.backoff_ticks,
+            backoff_entry_loss_pm: self.backoff_entry_loss_pm,
+            loss_uncongestive: self.loss_uncongestive,
+            uncongestive_ticks: self.uncongestive_ticks,
+        }
+    }
+}
+
+#[cfg(feature = "verif-hooks")]
+impl LinkCcController {
+    /// `conn_id`s the controller currently holds state for, sorted.
+    pub fn verif_keys(&self) -> Vec<u64> {
+        let mut keys: Vec<u64> = self.per_conn.keys().copied().collect();
+        keys.sort_unstable();
+        keys
+    }
+
+    /// Private per-link state for `conn_id`, if tracked.
+    pub fn verif_link_dump(&self, conn_id: u64) -> Option<VerifLinkCcDump> {
+        self.per_conn.get(&conn_id).map(|s| s.verif_dump())
+    }
+}
+
 #[cfg(test)]
 mod tests {
     use super::*;
